@@ -25,10 +25,10 @@ static inline bool sig_is_timer(int64_t s) { return s == CMB_PROCESS_TIMEOUT || 
 static inline bool sig_is_intr(int64_t s) { return s == CMB_PROCESS_INTERRUPTED || (s >= 31 && s <= 39); }
 
 enum callkind { K_NONE, K_HOLD, K_YIELD, K_WAITPROC, K_WAITEV, K_RACQ, K_RPRE, K_PACQ, K_PPRE, K_BPUT, K_BGET,
-                K_OQPUT, K_OQGET, K_PQPUT, K_PQGET, K_CWAIT, K_N };
+                K_OQPUT, K_OQGET, K_PQPUT, K_PQGET, K_CWAIT, K_GWAIT, K_N };
 static const char *const callname[] = { "none", "hold", "yield", "wait_process", "wait_event", "resource_acquire", "resource_preempt",
     "pool_acquire", "pool_preempt", "buffer_put", "buffer_get", "objectqueue_put", "objectqueue_get", "priorityqueue_put",
-    "priorityqueue_get", "condition_wait" };
+    "priorityqueue_get", "condition_wait", "guard_wait_custom_demand" };
 
 enum ledkind { L_INTERRUPT, L_TIMER, L_HOLDTIMER, L_PREEMPT, L_AWAITED, L_EVCANCEL, L_CCANCEL, L_RESUME };
 static const char *const ledname[] = { "interrupt", "timer", "hold-timer", "preempt", "awaited-end", "event-cancelled", "condition-cancel", "resume" };
